@@ -197,9 +197,16 @@ pub fn render(flat: &Flat, cfg: &LayoutCfg, rng: &mut Rng) -> Rendered {
             // raw text follows the A2ML tag directly; it carries its own whitespace
         } else if matches!(prev_kind, Some(TK::A2ml)) && !must_break {
             // Wide mode: /end may follow the raw text on the same line if the text ends in whitespace
-            let ends_ws = out.text.ends_with(|c: char| c == ' ' || c == '\n' || c == '\t');
-            if !ends_ws {
-                out.text.push(' ');
+            if rng.coin() {
+                out.newline(rng);
+                for _ in 0..rng.below(5) {
+                    out.text.push(' ');
+                }
+            } else {
+                let ends_ws = out.text.ends_with(|c: char| c == ' ' || c == '\n' || c == '\t');
+                if !ends_ws {
+                    out.text.push(' ');
+                }
             }
         } else {
             let mut broke = false;
@@ -305,6 +312,9 @@ pub fn render(flat: &Flat, cfg: &LayoutCfg, rng: &mut Rng) -> Rendered {
         lines.push(out.line);
         if cfg.mode == Mode::Canonical {
             out.push_tok_text(&canonical_spelling(&ft.tok));
+        } else if kind == TK::A2ml && cfg.eol != Eol::Lf {
+            // the raw A2ML text follows the line-end convention of the file
+            out.push_tok_text(&ft.tok.text.replace('\n', "\r\n"));
         } else {
             out.push_tok_text(&ft.tok.text);
         }
